@@ -5,9 +5,11 @@ import (
 	"go/ast"
 	"go/token"
 	"go/types"
+	"math/big"
 	"sort"
 	"strings"
 
+	"cachelint/poly"
 	"cachelint/pw"
 )
 
@@ -417,7 +419,19 @@ func (c *Ctx) c01Sibling(fo *FO) {
 				}
 			}
 			// the inserted entry is a fresh key lock with its own channel (waiters block on it, the release closes it)
-			if iv := pointee(cl.insert.Value); iv == nil || iv.Kind != pw.KAlloc || p.FieldOf(iv, actualField(klTypeOf(fo.Name), "lock")) == nil || p.FieldOf(iv, actualField(klTypeOf(fo.Name), "lock")).Kind != pw.KAlloc {
+			armed := false
+			if iv := pointee(cl.insert.Value); iv != nil && iv.Kind == pw.KAlloc {
+				// WaitGroup form of the signal: armed with Add(1) on this entry before it is published
+				for _, ev := range p.Events[:cl.insertI] {
+					if ev.Kind == pw.EvCall && ev.Role == "Std:sync.WaitGroup.Add" && len(ev.Args) == 1 && ev.Recv != nil &&
+						ev.Recv.Loc() == fmt.Sprintf("$%d.%s", iv.ID, actualField(klTypeOf(fo.Name), "lock")) {
+						if n, ok := poly.Of(ev.Args[0], nil).IsConst(); ok && n.Cmp(big.NewRat(1, 1)) == 0 {
+							armed = true
+						}
+					}
+				}
+			}
+			if iv := pointee(cl.insert.Value); !armed && (iv == nil || iv.Kind != pw.KAlloc || p.FieldOf(iv, actualField(klTypeOf(fo.Name), "lock")) == nil || p.FieldOf(iv, actualField(klTypeOf(fo.Name), "lock")).Kind != pw.KAlloc) {
 				d, t := c.pathDetail(fo, p, "the entry inserted into keyLocks is not a freshly built key lock with a freshly made channel")
 				r.Bad("R01.2", cons, "insert-not-fresh-entry", c.Pos(cl.insert.Pos), d, t)
 			}
